@@ -576,3 +576,385 @@ Proof.
   exists (after ex_ctx ex_st). split; [apply import_export; [exact ex_ctx_ok|exact ex_inv]|].
   split; [vm_compute; discriminate|cbn; discriminate].
 Qed.
+
+(** * Histories: the invariant holds along every history of the operational models
+
+    The chain is the product of the models of the other properties: the AMM (Model/Coinswap.v: pool
+    creation, trades, liquidity), the stored parameter sets under governance (Model/Authority.v), the
+    token-pair registry (Model/TokenPairs.v: register, toggle, removal), the CSR registry with the
+    post-transaction hook (Model/Csr.v: Turnstile events, revenue, counters), the epoch clock with
+    inflation as listener (Model/Epochs.v, Model/Inflation.v: ticks, mints, periods, skipped epochs)
+    and the govshuttle port (set once, when the first proposal deploys the store contract). *)
+From Canto Require Proofs.CoinswapEffects Proofs.CoinswapWF Proofs.GenesisCoinswap Proofs.EpochsProofs.
+
+Record world := mkW {
+  w_coin : Coinswap.state;          (* pools and next sequence (its own abstract view of the params is not exported) *)
+  w_std : Z;                        (* the standard denomination, validated by the genesis the chain started from *)
+  w_par : chain unit;               (* stored params of coinswap, inflation, csr, onboarding, erc20 *)
+  w_erc : TokenPairs.state;
+  w_csr : Csr.state;
+  w_dom : list Z;                   (* NFT ids under the first csr store prefix *)
+  w_inf : Inflation.state;
+  w_ep : list epoch;
+  w_port : option Z
+}.
+
+Definition abs_cs (w : world) : cs_st :=
+  let ps := Coinswap.st_pools (w_coin w) in
+  mkCsSt (c_cs (w_par w)) (w_std w) true (Coinswap.st_next (w_coin w))
+         (map (fun e => canon_pool (w_std w) (fst e) (snd e)) ps) (map (fun e => (snd e, fst e)) ps).
+
+(* the stored state the seven modules export (stored pairs carry well-formed strings: RegisterCoin /
+   RegisterERC20 validate them; checked on every case by the ValidateGenesis monitor) *)
+Definition abs (w : world) : state :=
+  mkSt (abs_cs w)
+       (mkErcSt (w_erc w) (erc_hook (c_erc (w_par w))) true)
+       (mkCsrSt (c_csr (w_par w)) (Csr.reg (w_csr w)) (w_dom w) (Csr.turnstile (Csr.cfg (w_csr w))))
+       (mkInfSt (c_inf (w_par w)) (Inflation.st_period (w_inf w)) (Inflation.st_ident (w_inf w))
+                (Inflation.st_epp (w_inf w)) (Inflation.st_skipped (w_inf w)) (Inflation.st_provision (w_inf w)))
+       (w_ep w) (w_port w) (c_onb (w_par w)).
+
+Inductive wop :=
+| WCoinswap (now : Z) (o : Coinswap.op)
+| WParams (x : Authority.op unit)
+| WErc20 (o : TokenPairs.op)
+| WCsrTx (t : Csr.tx)
+| WBlock (t h : Z) (o : Inflation.oracle)
+| WPort (a : Z).
+
+(* ids of the Register events of a receipt *)
+Fixpoint reg_ids (logs : list Csr.log) : list Z :=
+  match logs with
+  | [] => []
+  | l :: r => match Csr.l_payload l with Csr.PRegister _ _ id => Csr.u64 id :: reg_ids r | _ => reg_ids r end
+  end.
+
+Definition is_some' {A} (o : option A) : bool := match o with Some _ => true | None => false end.
+
+Definition new_ids (t : Csr.tx) (g' : Csr.registry) (dom : list Z) : list Z :=
+  filter (fun n => is_some' (Csr.csrs g' n) && negb (zmem n dom)) (zdedup (reg_ids (Csr.tx_logs t))).
+
+Section History.
+Variable gov : str.     (* the governance module's address string *)
+Variable day : Z.       (* rank of the identifier "day" *)
+
+Definition wstep (o : wop) (w : world) : world :=
+  match o with
+  | WCoinswap now x =>
+      mkW (fst (Coinswap.deliver now (w_coin w) x)) (w_std w) (w_par w) (w_erc w) (w_csr w) (w_dom w) (w_inf w) (w_ep w) (w_port w)
+  | WParams x =>
+      mkW (w_coin w) (w_std w) (snd (Authority.step gov x (w_par w))) (w_erc w) (w_csr w) (w_dom w) (w_inf w) (w_ep w) (w_port w)
+  | WErc20 x =>
+      mkW (w_coin w) (w_std w) (w_par w) (fst (TokenPairs.step x (w_erc w))) (w_csr w) (w_dom w) (w_inf w) (w_ep w) (w_port w)
+  | WCsrTx t =>
+      let s' := Csr.deliver t (w_csr w) in
+      mkW (w_coin w) (w_std w) (w_par w) (w_erc w) s' (w_dom w ++ new_ids t (Csr.reg s') (w_dom w)) (w_inf w) (w_ep w) (w_port w)
+  | WBlock t h o =>
+      match Inflation.block day o t h (w_ep w) (w_inf w) with
+      | Some (es', s') => mkW (w_coin w) (w_std w) (w_par w) (w_erc w) (w_csr w) (w_dom w) s' es' (w_port w)
+      | None => w     (* a panic in BeginBlocker halts the chain: no further state *)
+      end
+  | WPort a =>
+      mkW (w_coin w) (w_std w) (w_par w) (w_erc w) (w_csr w) (w_dom w) (w_inf w) (w_ep w)
+          (match w_port w with Some p => Some p | None => Some a end)
+  end.
+
+Definition wrun (os : list wop) (w : world) : world := fold_left (fun w o => wstep o w) os w.
+
+Record WInv (w : world) : Prop := {
+  wi_wf : CoinswapEffects.WF (w_coin w);
+  wi_seq : GenesisCoinswap.seq_exact (w_coin w);
+  wi_par : chain_valid (w_par w) = true;
+  wi_guard : InflationProofs.calc_guard (exp_of (c_inf (w_par w)));
+  wi_erc : TokenPairsProofs.Inv (w_erc w);
+  wi_csr : CsrProofs.csr_inv (Csr.reg (w_csr w));
+  wi_dom_nd : List.NoDup (w_dom w);
+  wi_dom : forall n, In n (w_dom w) <-> Csr.csrs (Csr.reg (w_csr w)) n <> None;
+  wi_epp : 0 < Inflation.st_epp (w_inf w);
+  wi_ident : 0 <= Inflation.st_ident (w_inf w);
+  wi_ep : Inv_ep (w_ep w)
+}.
+
+(* what the models take on trust for one operation *)
+Definition op_ok (w : world) (o : wop) : Prop :=
+  match o with
+  | WErc20 x => TokenPairsProofs.fresh_ok (w_erc w) x        (* the EVM gives a fresh address to a new contract *)
+  | WParams (UpdInflation _ _ p) => InflationProofs.calc_guard (exp_of p)   (* no absurd decay parameters *)
+  | WBlock _ h _ => 0 <= h
+  | WCsrTx t =>                                                (* ids stored by a receipt are ids of its Register events *)
+      forall n, Csr.csrs (Csr.reg (Csr.deliver t (w_csr w))) n <> None ->
+                Csr.csrs (Csr.reg (w_csr w)) n <> None \/ In n (reg_ids (Csr.tx_logs t))
+  | _ => True
+  end.
+
+Fixpoint hist_ok (w : world) (os : list wop) : Prop :=
+  match os with
+  | [] => True
+  | o :: r => op_ok w o /\ hist_ok (wstep o w) r
+  end.
+
+(** ** the abstraction of an invariant world satisfies [Inv] *)
+Lemma zmax_ge l x : In x l -> x <= zmax l.
+Proof. induction l as [|y r IH]; intros H; [destruct H|]. cbn [zmax]. destruct H as [->|H]; [lia|]. specialize (IH H). lia. Qed.
+Lemma zmax_le l m : 0 <= m -> (forall x, In x l -> x <= m) -> zmax l <= m.
+Proof.
+  intros Hm. induction l as [|y r IH]; intros H; cbn [zmax]; [exact Hm|].
+  pose proof (H y (or_introl eq_refl)). assert (zmax r <= m) by (apply IH; intros x Hx; apply H; right; exact Hx). lia.
+Qed.
+
+Lemma abs_cs_inv w :
+  CoinswapEffects.WF (w_coin w) -> GenesisCoinswap.seq_exact (w_coin w) -> cs_valid (c_cs (w_par w)) = true ->
+  Inv_cs (abs_cs w).
+Proof.
+  intros [_ _ (ND1 & ND2 & _) _] [SL SH SE ST] HP.
+  set (ps := Coinswap.st_pools (w_coin w)) in *.
+  assert (Eid : map gp_id (map (fun e => canon_pool (w_std w) (fst e) (snd e)) ps) = map fst ps).
+  { rewrite map_map. apply map_ext. reflexivity. }
+  assert (Elpt : map gp_lpt (map (fun e => canon_pool (w_std w) (fst e) (snd e)) ps) = map snd ps).
+  { rewrite map_map. apply map_ext. reflexivity. }
+  assert (Eseq : map seq_of (map (fun e => canon_pool (w_std w) (fst e) (snd e)) ps) = map snd ps).
+  { rewrite map_map. apply map_ext. reflexivity. }
+  split.
+  - unfold validate_cs, export_cs, abs_cs. fold ps. cbn [cg_std_ok cg_pools cg_seq cg_params cs_std_ok cs_pools cs_next cs_par].
+    rewrite Eid, Elpt, Eseq.
+    rewrite (proj2 (znodup_NoDup _) ND1), (proj2 (znodup_NoDup _) ND2). cbn [andb].
+    assert (F : forallb pool_ok (map (fun e => canon_pool (w_std w) (fst e) (snd e)) ps) = true).
+    { apply forallb_forall. intros p Hp. apply in_map_iff in Hp as (e & <- & _). reflexivity. }
+    rewrite F. cbn [andb].
+    assert (M : zmax (map snd ps) + 1 = Coinswap.st_next (w_coin w)).
+    { destruct ps as [|[k q] r] eqn:Q.
+      - cbn. rewrite SE; [reflexivity|reflexivity].
+      - destruct ST as (n & Hn); [discriminate|].
+        assert (A : Coinswap.st_next (w_coin w) - 1 <= zmax (map snd ((k, q) :: r))).
+        { apply zmax_ge. apply in_map_iff. exists (n, Coinswap.st_next (w_coin w) - 1). split; [reflexivity|exact Hn]. }
+        assert (B : zmax (map snd ((k, q) :: r)) <= Coinswap.st_next (w_coin w) - 1).
+        { apply zmax_le.
+          - specialize (SL _ _ Hn). lia.
+          - intros x Hx. apply in_map_iff in Hx as ([k' q'] & <- & Hin). specialize (SH _ _ Hin). cbn [snd]. lia. }
+        lia. }
+    rewrite M, Z.eqb_refl. cbn [andb].
+    unfold cs_valid in HP. do 5 (apply andb_prop in HP as [HP _]). exact HP.
+  - exact HP.
+  - intros l. unfold pool_by_lpt, pool_by_id, abs_cs. fold ps. cbn [cs_idx cs_pools].
+    rewrite <- (rebuilt_idx_exact _ l); [|rewrite Eid; exact ND1].
+    unfold rebuilt_idx. rewrite map_map. reflexivity.
+Qed.
+
+Theorem abs_inv w : WInv w -> Inv (abs w).
+Proof.
+  intros [WF SX VP G HE HC ND HD He Hi HP].
+  pose proof VP as VP'. unfold chain_valid in VP'.
+  apply andb_prop in VP' as [VP' Verc]. apply andb_prop in VP' as [VP' Vonb].
+  apply andb_prop in VP' as [VP' Vcsr]. apply andb_prop in VP' as [Vcs Vinf].
+  split; cbn [abs s_cs s_erc s_csr s_inf s_ep s_onb].
+  - apply abs_cs_inv; assumption.
+  - split; [exact HE|reflexivity].
+  - split; cbn [rs_reg rs_par rs_dom]; assumption.
+  - split; cbn [is_par is_epp is_ident]; assumption.
+  - exact HP.
+  - exact Vonb.
+Qed.
+End History.
+
+(** ** every operation keeps the invariant *)
+Lemma zdedup_In x l : In x (zdedup l) <-> In x l.
+Proof.
+  induction l as [|y r IH]; cbn [zdedup In]; [tauto|].
+  rewrite filter_In, IH. destruct (Z.eqb_spec x y) as [->|Hne].
+  - split; intros _; left; reflexivity.
+  - split; [intros [H|[H _]]; [left; exact H|right; exact H]|].
+    intros [H|H]; [left; exact H|right; split; [exact H|]].
+    destruct (Z.eqb_spec x y); [contradiction|reflexivity].
+Qed.
+Lemma zdedup_NoDup l : List.NoDup (zdedup l).
+Proof.
+  induction l as [|y r IH]; cbn [zdedup]; constructor.
+  - rewrite filter_In. intros [_ H]. rewrite Z.eqb_refl in H. discriminate.
+  - apply List.NoDup_filter. exact IH.
+Qed.
+
+Lemma lnodup_app (a b : list Z) :
+  List.NoDup a -> List.NoDup b -> (forall x, In x a -> In x b -> False) -> List.NoDup (a ++ b).
+Proof.
+  induction a as [|x r IH]; intros Ha Hb Hd; cbn [app]; [exact Hb|].
+  inversion Ha as [|? ? Hn Hr]; subst. constructor.
+  - rewrite in_app_iff. intros [H|H]; [contradiction|]. apply (Hd x); [left; reflexivity|exact H].
+  - apply IH; [exact Hr|exact Hb|]. intros y Hy. apply Hd. right. exact Hy.
+Qed.
+
+Lemma deliver_keeps t s n : Csr.csrs (Csr.reg s) n <> None -> Csr.csrs (Csr.reg (Csr.deliver t s)) n <> None.
+Proof.
+  intros H. unfold Csr.deliver. destruct (Csr.post_tx t s) as [s'|] eqn:E; [|exact H].
+  destruct (Csr.csrs (Csr.reg s) n) as [r|] eqn:A; [|contradiction].
+  destruct (CsrProofs.post_tx_keeps _ _ _ _ _ E A) as (r' & B & _). rewrite B. discriminate.
+Qed.
+
+Lemma run_hooks_static day o hs : forall s s',
+  Inflation.run_hooks day o hs s = Some s' ->
+  Inflation.st_epp s' = Inflation.st_epp s /\ Inflation.st_ident s' = Inflation.st_ident s.
+Proof.
+  induction hs as [|k r IH]; intros s s' H; cbn [Inflation.run_hooks] in H.
+  - inversion H; subst. auto.
+  - destruct k as [id n|id n]; [|apply IH; exact H].
+    destruct (Inflation.after_epoch_end day o id n s) as [s1|] eqn:E1; cbn [SdkInt.obind] in H; [|discriminate].
+    apply InflationProofs.hook_static in E1 as (_ & A & B). apply IH in H as [C D]. split; congruence.
+Qed.
+
+Lemma tick_epoch_inv t h e : 0 <= h -> epoch_inv e -> epoch_inv (fst (tick t h e)).
+Proof.
+  intros Hh (A & B & C & D). unfold tick.
+  destruct (_ && _); [cbn [fst]; repeat split; cbn; try assumption; lia|].
+  destruct (_ && _); cbn [fst]; repeat split; cbn; try assumption; lia.
+Qed.
+
+Lemma begin_block_inv_ep t h es : 0 <= h -> Inv_ep es -> Inv_ep (fst (begin_block t h es)).
+Proof.
+  intros Hh [HS HE]. rewrite EpochsProofs.block_records. split.
+  - clear HE. revert HS. generalize (-1). induction es as [|e r IH]; intros lo HS; cbn [map ids_sorted] in *; [exact I|].
+    destruct HS as [A B]. rewrite EpochsProofs.tick_id. split; [exact A|apply IH; exact B].
+  - rewrite Forall_forall in *. intros e He. apply in_map_iff in He as (e0 & <- & He0).
+    apply tick_epoch_inv; [exact Hh|apply HE; exact He0].
+Qed.
+
+Lemma step_c_inf {R} gov (x : op R) st :
+  c_inf (snd (step gov x st)) = c_inf st \/
+  (exists a n p, x = UpdInflation a n p /\ c_inf (snd (step gov x st)) = p).
+Proof.
+  destruct x as [a n p|a n p|a n p|a n p|a p|k a inner].
+  - rewrite AuthorityProofs.coinswap_update. destruct (_ && _); left; reflexivity.
+  - rewrite AuthorityProofs.inflation_update. destruct (_ && _); [right; eauto|left; reflexivity].
+  - rewrite AuthorityProofs.csr_update. destruct (_ && _); left; reflexivity.
+  - rewrite AuthorityProofs.onboarding_update. destruct (_ && _); left; reflexivity.
+  - rewrite AuthorityProofs.erc20_update. destruct (str_eqb gov a); left; reflexivity.
+  - left. apply AuthorityProofs.priv_step.
+Qed.
+
+Section Steps.
+Variable gov : str.
+Variable day : Z.
+
+Theorem wstep_inv o w : WInv w -> op_ok w o -> WInv (wstep gov day o w).
+Proof.
+  intros [WF SX VP G HE HC ND HD He Hi HP] OK.
+  destruct o as [now x|x|x|t|t h orc|a]; cbn [wstep op_ok] in *.
+  - split; cbn [w_coin w_par w_erc w_csr w_dom w_inf w_ep]; try assumption.
+    + apply CoinswapWF.deliver_WF. exact WF.
+    + eapply GenesisCoinswap.meta_step_seq; [exact SX|apply GenesisCoinswap.deliver_meta; exact WF].
+  - split; cbn [w_coin w_par w_erc w_csr w_dom w_inf w_ep]; try assumption.
+    + apply AuthorityProofs.step_valid. exact VP.
+    + destruct (step_c_inf gov x (w_par w)) as [E|(a & n & p & -> & E)]; rewrite E; [exact G|exact OK].
+  - split; cbn [w_coin w_par w_erc w_csr w_dom w_inf w_ep]; try assumption.
+    apply TokenPairsProofs.step_inv; assumption.
+  - split; cbn [w_coin w_par w_erc w_csr w_dom w_inf w_ep]; try assumption.
+    + apply CsrProofs.deliver_inv. exact HC.
+    + apply lnodup_app; [exact ND| |].
+      * apply List.NoDup_filter. apply zdedup_NoDup.
+      * intros n Hn Hn'. unfold new_ids in Hn'. apply filter_In in Hn' as [_ Hn'].
+        apply andb_prop in Hn' as [_ Hn']. apply negb_true_iff in Hn'.
+        apply zmem_In in Hn. congruence.
+    + intros n. rewrite in_app_iff. unfold new_ids. rewrite filter_In, zdedup_In. split.
+      * intros [Hn|(_ & Hn)].
+        -- apply deliver_keeps. apply HD. exact Hn.
+        -- apply andb_prop in Hn as [Hn _]. destruct (Csr.csrs _ n); [discriminate|discriminate Hn].
+      * intros Hn. destruct (zmem n (w_dom w)) eqn:Z1; [left; apply zmem_In; exact Z1|].
+        destruct (OK n Hn) as [Old|New]; [left; apply HD; exact Old|].
+        right. split; [exact New|].
+        destruct (Csr.csrs _ n); [reflexivity|contradiction].
+  - destruct (Inflation.block day orc t h (w_ep w) (w_inf w)) as [[es' s']|] eqn:E;
+      [|split; assumption].
+    unfold Inflation.block in E. destruct (begin_block t h (w_ep w)) as [es1 hs] eqn:B.
+    destruct (Inflation.run_hooks day orc hs (w_inf w)) as [s1|] eqn:R; cbn [SdkInt.obind] in E; [|discriminate].
+    inversion E; subst es' s'. apply run_hooks_static in R as [R1 R2].
+    split; cbn [w_coin w_par w_erc w_csr w_dom w_inf w_ep]; try assumption.
+    + rewrite R1. exact He.
+    + rewrite R2. exact Hi.
+    + replace es1 with (fst (begin_block t h (w_ep w))) by (rewrite B; reflexivity).
+      apply begin_block_inv_ep; assumption.
+  - split; cbn [w_coin w_par w_erc w_csr w_dom w_inf w_ep]; assumption.
+Qed.
+
+Theorem wrun_inv os : forall w, WInv w -> hist_ok gov day w os -> WInv (wrun gov day os w).
+Proof.
+  induction os as [|o r IH]; intros w HI HH; [exact HI|].
+  destruct HH as [H1 H2]. cbn [wrun fold_left]. apply IH; [apply wstep_inv; assumption|exact H2].
+Qed.
+
+(** ** the history theorem: after any history of operations from a state of the invariant, the
+       export passes validation, imports, re-exports to the same documents and answers the same.
+       [_partial]: the clause of [op_ok] for CSR transactions (the ids a receipt stores are ids of its
+       Register events) is a fact about Model/Csr.v that is assumed here, not derived; the other clauses
+       are external facts (fresh contract addresses, decay parameters inside LegacyDec, block height >= 0). *)
+Theorem history_partial c os w :
+  ctx_ok c -> WInv w -> hist_ok gov day w os ->
+  let s := abs (wrun gov day os w) in
+  validate (export s) = true /\
+  exists s', import c (export s) = Some s' /\
+             gen_equiv (export s') (export s) /\
+             forall pr, answer pr s' = answer pr s.
+Proof.
+  intros Hc HI HH s. assert (HS : Inv s) by (apply abs_inv, wrun_inv; assumption).
+  split; [apply export_valid; exact HS|].
+  exists (after c s). split; [apply import_export; assumption|]. split.
+  - eapply fixed_point; [exact Hc|exact HS|apply import_export; assumption].
+  - intros pr. eapply queries_equal; [exact Hc|exact HS|apply import_export; assumption].
+Qed.
+End Steps.
+
+(** ** Non-vacuity of the history theorem: a concrete world with a pool, two token pairs and two CSRs,
+       and a history with a parameter change, the port, a CSR-less transaction and a block *)
+Definition ex_par : chain unit :=
+  mkChain AuthorityProofs.ex_cs AuthorityProofs.ex_inf (mkCsr true (2 * 10 ^ 17)) (mkOnb true 4 []) (mkErc true true) tt.
+Definition ex_csr_state : Csr.state :=
+  Csr.mkState ex_csr_reg (Csr.mkMoney 0 0 0 0 (fun _ => 0)) (Csr.mkCfg (Some 999) true (2 * 10 ^ 17)).
+Definition ex_world : world :=
+  mkW CoinswapWF.ex_state 1 ex_par TokenPairsProofs.ex_state ex_csr_state [1; 4] (InflationProofs.ex_state true) ex_ep_st None.
+Definition ex_gov : str := [103; 111; 118].
+Definition ex_ops : list wop :=
+  [WPort 4242; WParams (UpdCsr ex_gov false (mkCsr true (10 ^ 17)));
+   WCsrTx (Csr.mkTx (fun _ => false) [] 0 1 None); WBlock 1000 9 InflationProofs.ex_oracle; WPort 1].
+
+Example ex_winv : WInv ex_world.
+Proof.
+  split; cbn [ex_world w_coin w_par w_erc w_csr w_dom w_inf w_ep].
+  - exact CoinswapWF.ex_state_WF.
+  - exact GenesisCoinswap.ex_seq_exact.
+  - vm_compute. reflexivity.
+  - split; vm_compute; reflexivity.
+  - apply TokenPairsProofs.ex_inv.
+  - exact ex_csr_reg_inv.
+  - repeat constructor; cbn; intuition lia.
+  - exact (icsr_dom _ (inv_csr _ ex_inv)).
+  - cbn. lia.
+  - cbn. lia.
+  - exact (inv_ep _ ex_inv).
+Qed.
+
+Example ex_hist_ok : hist_ok ex_gov 0 ex_world ex_ops.
+Proof.
+  cbn [ex_ops hist_ok op_ok]. repeat split; try lia.
+  intros n H. left. exact H.
+Qed.
+
+Example ex_history_content :
+  w_port (wrun ex_gov 0 ex_ops ex_world) = Some 4242 /\
+  c_csr (w_par (wrun ex_gov 0 ex_ops ex_world)) = mkCsr true (10 ^ 17) /\
+  map e_height (w_ep (wrun ex_gov 0 ex_ops ex_world)) = [9; 9].
+Proof. vm_compute. repeat split; reflexivity. Qed.
+
+(** * Without the overflow guard the import can panic
+
+    [iinf_guard] cannot be dropped from the invariant: parameters that every validator accepts
+    (A = 2^314 raw, MaxVariance = 3) make CalculateEpochMintProvision overflow LegacyDec, so
+    InitGenesis of x/inflation panics on the chain's own export.  (The same parameters would halt
+    the chain at the next period boundary; governance would have to set them.) *)
+Definition ex_huge_inf : inf_st :=
+  mkInfSt (mkInf [97; 99; 97; 110; 116; 111] (2 ^ 314) 0 0 (8 * 10 ^ 17) (3 * 10 ^ 18) (10 ^ 18) 0 true) 0 0 30 0 0.
+
+Theorem import_without_guard_refuted :
+  exists c s, ctx_ok c /\ inf_valid (is_par s) = true /\ 0 < is_epp s /\ 0 <= is_ident s /\
+              validate_inf (export_inf s) = true /\ import_inf c (export_inf s) = None.
+Proof.
+  exists (mkICtx 1 0 0), ex_huge_inf. split; [split; cbn; lia|].
+  split; [vm_compute; reflexivity|]. split; [cbn; lia|]. split; [cbn; lia|].
+  split; vm_compute; reflexivity.
+Qed.
